@@ -759,6 +759,8 @@ def check_type_spans(fx, rep, rule="R12.2"):
                 ok = True
             elif cs == 256 and to[0] == "bin" and to[1] == "Mul" and (const(strip(to[2])) == 256 or const(strip(to[3])) == 256):
                 ok = True  # word #k of a multi-word value (a struct behind a mapping): whole words at word-aligned offsets
+            elif cs == 256 and to[0] == "call" and isinstance(to[1], str) and F.strip_generics(to[1]).split("::")[-1] in ("saturating_mul", "wrapping_mul", "checked_mul") and any(const(strip(a_)) == 256 for a_ in to[2]):
+                ok = True  # the same, with the multiplication spelt as a method
             if not ok:
                 # a comparison with the word size that is known to hold here
                 for lhs, rhs, strict in T.upper_bounds(ps, node, env, mutated):
